@@ -68,7 +68,7 @@ func TestEquiv(t *testing.T) {
 		{"a$", "a", false},
 		{"(?s:.)", ".", false},
 		{"[\\s -/]", "[\\s\\x0b-/]", false},
-		{"\\s", "[\\s\\x0b]", true}, // VT is outside the alphabet
+		{"\\s", "[\\s\\x0b]", true},  // VT is outside the alphabet
 		{"foo(?:bar)?", "foo", true}, // search semantics
 		{"a{2,3}", "aaa?", true},
 		{"é", "\\x{e9}", true},
